@@ -36,6 +36,7 @@ var Families = map[string]func(t *testing.T, seed int64, steps int) *Cluster{
 	"voterestart": famVoteRestart,
 	"stalerepl":   famStaleRepl,
 	"demoteelect": famDemoteElect,
+	"barrierrace": famBarrierRace,
 }
 
 // famSnapMember: snapshots racing with membership changes and a slow FSM, then restarts from the snapshot.
